@@ -5,7 +5,7 @@ Each spec is a function spec(I, R) where I is an Interp (symbolic or concrete mo
 It declares the input atoms with their assumed ranges (the operand discipline), runs the real MIR body and states
 the post-conditions. The same spec is re-run in concrete mode on a solver model to confirm a counterexample.
 """
-from poly import Poly
+from poly import Poly, DP
 from interp import IntV, AggV, RefV, Cell, BoolV, UnitV
 
 P25519 = (1 << 255) - 19
@@ -14,7 +14,7 @@ L25519 = (1 << 252) + 27742317777372353535851937790883648493
 
 
 def val(limbs, bits):
-    p = Poly()
+    p = DP()
     for i, l in enumerate(limbs):
         p = p + l.p.scale(1 << (bits * i))
     return p
@@ -34,7 +34,7 @@ def poly1305_block(final):
         h = AggV([I.input("h%d" % i, "u32", 0, hmax[i]) for i in range(5)])
         # 16 message bytes; bytes straddling a 26-bit limb boundary are split into (low, high) bit fields so that limb extraction is exact
         split = {3: 2, 6: 4, 9: 6}
-        mb, mval = [], Poly()
+        mb, mval = [], DP()
         for j in range(16):
             if j in split:
                 lo = I.input("m%dl" % j, "u8", 0, (1 << split[j]) - 1)
@@ -55,7 +55,7 @@ def poly1305_block(final):
         for i in range(5):
             R.range(h2[i].p, 0, hmax[i], "block: h'[%d] within the limb invariant I_h" % i)
         hib = 0 if final else (1 << 128)
-        want = (vh + mval + Poly.const(hib)) * vr
+        want = (vh + mval + DP.const(hib)) * vr
         R.congruent(val(h2, 26), want, P1305, "block: h' == (h + m + hibit*2^128) * r (mod 2^130-5)")
         for i in range(5):
             R.equal(cell.v.f[0].f[i].p, r0[i], "block: r untouched")
@@ -103,7 +103,7 @@ def fe64_unop(fname, sig, op, in_hi=LOOSE, out_hi=TIGHT, mutref=False):
             orig = [x.p for x in fe_limbs(a)]
             I.run(f, [RefV(c, ())])
             o = fe_limbs(c.v)
-            va = Poly()
+            va = DP()
             for i, x in enumerate(orig):
                 va = va + x.scale(1 << (51 * i))
         else:
@@ -137,7 +137,7 @@ def fe64_from_bytes(I, R):
     """from_bytes: limbs < 2^51, value == little-endian value of the 32 bytes with bit 255 ignored"""
     # bytes straddling a 51-bit limb boundary are split into bit fields: bit 51 = byte 6 bit 3, 102 = byte 12 bit 6, 153 = byte 19 bit 1, 204 = byte 25 bit 4, 255 = byte 31 bit 7
     split = {6: 3, 12: 6, 19: 1, 25: 4, 31: 7}
-    bs, v = [], Poly()
+    bs, v = [], DP()
     for j in range(32):
         if j in split:
             lo = I.input("s%dl" % j, "u8", 0, (1 << split[j]) - 1)
@@ -159,6 +159,134 @@ def fe64_from_bytes(I, R):
     R.equal(val(o, 51), v, "from_bytes: value == le256(bytes) mod 2^255 (bit 255 ignored)")
 
 
+# ------------------------------------------------------------------------------------------------ byte inputs with bit-field splits
+def byte_inputs(I, name, n, boundaries, ignore_from_bit=None):
+    """n input bytes; a byte that contains a limb boundary (bit positions in `boundaries`) is split into two bit-field atoms so that
+    limb extraction by shift+mask is exact. returns (list of IntV bytes, polynomial of the little-endian value)"""
+    split = {}
+    for b in boundaries:
+        if b % 8 and b // 8 < n:
+            split.setdefault(b // 8, []).append(b % 8)
+    bs, v = [], DP()
+    for j in range(n):
+        cuts = sorted(set(split.get(j, [])))
+        if cuts:
+            edges = [0] + cuts + [8]
+            p = DP()
+            for k in range(len(edges) - 1):
+                w = edges[k + 1] - edges[k]
+                a = I.input("%s%d_%d" % (name, j, edges[k]), "u8", 0, (1 << w) - 1)
+                if ignore_from_bit is None or 8 * j + edges[k] < ignore_from_bit:
+                    v = v + a.p.scale(1 << (8 * j + edges[k]))
+                p = p + a.p.scale(1 << edges[k])
+            b = IntV(p, "u8")
+        else:
+            b = I.input("%s%d" % (name, j), "u8", 0, 255)
+            if ignore_from_bit is None or 8 * j < ignore_from_bit:
+                v = v + b.p.scale(1 << (8 * j))
+        bs.append(b)
+    return bs, v
+
+
+# ------------------------------------------------------------------------------------------------ fe32 (ref10 limbs: 26,25,26,25,... bits, signed)
+FE32 = r"^fn fe32::<impl at src/curve25519/fe/fe32/mod\.rs:[^>]*>::"
+OFF32 = [0, 26, 51, 77, 102, 128, 153, 179, 204, 230]
+T32 = [36909875 if i % 2 == 0 else 18454937 for i in range(10)]      # 1.1*2^25 / 1.1*2^24 : outputs of mul/square/from_bytes
+L32 = [73819750 if i % 2 == 0 else 36909875 for i in range(10)]      # 1.1*2^26 / 1.1*2^25 : sums/differences of two TIGHT; accepted by mul/square
+
+
+def val32(limbs):
+    p = DP()
+    for i, l in enumerate(limbs):
+        p = p + l.p.scale(1 << OFF32[i])
+    return p
+
+
+def fe32_in(I, name, hi):
+    return AggV([AggV([I.input("%s%d" % (name, i), "i32", -hi[i], hi[i]) for i in range(10)])])
+
+
+def fe32_binop(fname, sig, op, in_hi, out_hi):
+    def spec(I, R):
+        a, b = fe32_in(I, "a", in_hi), fe32_in(I, "b", in_hi)
+        va, vb = val32(fe_limbs(a)), val32(fe_limbs(b))
+        f = I.find_fn_re(FE32 + fname + sig)
+        out = I.run(f, [ref(a), ref(b)])
+        o = fe_limbs(out)
+        for i in range(10):
+            R.range(o[i].p, -out_hi[i], out_hi[i], "%s: output limb %d within its ref10 bound" % (fname, i))
+        want = {"add": va + vb, "sub": va - vb, "mul": va * vb}[op]
+        R.congruent(val32(o), want, P25519, "%s: value (mod 2^255-19)" % fname)
+    return spec
+
+
+def fe32_unop(fname, sig, op, in_hi, out_hi):
+    def spec(I, R):
+        a = fe32_in(I, "a", in_hi)
+        va = val32(fe_limbs(a))
+        f = I.find_fn_re(FE32 + fname + sig)
+        out = I.run(f, [ref(a)])
+        o = fe_limbs(out)
+        for i in range(10):
+            R.range(o[i].p, -out_hi[i], out_hi[i], "%s: output limb %d within its ref10 bound" % (fname, i))
+        want = {"neg": -va, "square": va * va, "square2": (va * va).scale(2), "mul121666": va.scale(121666)}[op]
+        R.congruent(val32(o), want, P25519, "%s: value (mod 2^255-19)" % fname)
+    return spec
+
+
+def fe32_from_bytes(I, R):
+    bs, v = byte_inputs(I, "s", 32, [255], ignore_from_bit=255)
+    f = I.find_fn_re(FE32 + r"from_bytes\(_1: &\[u8; 32\]\)")
+    out = I.run(f, [ref(AggV(bs))])
+    o = fe_limbs(out)
+    for i in range(10):
+        R.range(o[i].p, -T32[i], T32[i], "from_bytes: limb %d within the ref10 bound" % i)
+    R.congruent(val32(o), v, P25519, "from_bytes: value == le256(bytes) mod 2^255 (bit 255 ignored), mod 2^255-19")
+
+
+def fe32_to_bytes(I, R):
+    a = fe32_in(I, "a", T32)
+    va = val32(fe_limbs(a))
+    f = I.find_fn_re(FE32 + r"to_bytes\(_1: &fe32::Fe\)")
+    out = I.run(f, [ref(a)])
+    v = DP()
+    for j, b in enumerate(out.f):
+        R.range(b.p, 0, 255, "to_bytes: byte %d" % j)
+        v = v + b.p.scale(1 << (8 * j))
+    R.congruent(v, va, P25519, "to_bytes: value == input (mod 2^255-19)")
+    R.range(v, 0, P25519 - 1, "to_bytes: canonical (0 <= value < 2^255-19)")
+
+
+# ------------------------------------------------------------------------------------------------ scalar32 (ref10 sc_reduce / sc_muladd, 21-bit limbs)
+def scalar32_reduce(I, R):
+    bs, v = byte_inputs(I, "s", 64, [21 * k for k in range(1, 25)])
+    f = I.find_fn_re(r"^fn scalar32::<impl at [^>]*>::reduce_from_wide_bytes\(_1: &\[u8; 64\]\)")
+    out = I.run(f, [ref(AggV(bs))])
+    o = out.f[0].f
+    w = DP()
+    for j, b in enumerate(o):
+        R.range(b.p, 0, 255, "reduce_from_wide_bytes: byte %d" % j)
+        w = w + b.p.scale(1 << (8 * j))
+    R.congruent(w, v, L25519, "reduce_from_wide_bytes: result == input (mod L)")
+    R.range(w, 0, L25519 - 1, "reduce_from_wide_bytes: result canonical (< L)")
+
+
+def scalar32_muladd(I, R):
+    cuts = [21 * k for k in range(1, 12)]
+    ab, va = byte_inputs(I, "a", 32, cuts)
+    bb, vb = byte_inputs(I, "b", 32, cuts)
+    cb, vc = byte_inputs(I, "c", 32, cuts)
+    f = I.find_fn_re(r"^fn scalar32::muladd\(")
+    out = I.run(f, [ref(AggV([AggV(ab)])), ref(AggV([AggV(bb)])), ref(AggV([AggV(cb)]))])
+    o = out.f[0].f
+    w = DP()
+    for j, b in enumerate(o):
+        R.range(b.p, 0, 255, "muladd: byte %d" % j)
+        w = w + b.p.scale(1 << (8 * j))
+    R.congruent(w, va * vb + vc, L25519, "muladd: result == a*b + c (mod L)")
+    R.range(w, 0, L25519 - 1, "muladd: result canonical (< L)")
+
+
 SPECS = {
     "poly1305_block": dict(prop=["C05", "C20"], fn=poly1305_block(False), desc="Poly1305::block, full block (hibit set)"),
     "poly1305_block_final": dict(prop=["C05", "C20"], fn=poly1305_block(True), desc="Poly1305::block, final partial block (hibit clear)"),
@@ -172,4 +300,16 @@ SPECS = {
     "fe64_to_packed": dict(prop=["C15", "C12", "C20"], cfg="fe64", fn=fe64_to_packed(LOOSE), desc="Fe::to_packed (canonical encoding) for every limb vector in class LOOSE"),
     "fe64_from_bytes": dict(prop=["C15", "C12", "C20"], cfg="fe64", fn=fe64_from_bytes, desc="Fe::from_bytes"),
     "fe64_mul_small_121666": dict(prop=["C15", "C12", "C20"], cfg="fe64", fn=fe64_unop("mul_small", r"\(_1: &fe64::Fe\)", "mul121666"), desc="Fe::mul_small::<121666>", generic={"S0": (121666, "u32")}),
+    # ---- 32-bit backend (MIR dumped with --features force-32bits)
+    "fe32_add": dict(prop=["C17"], cfg="fe32", fn=fe32_binop("add", r"\(_1: &fe32::Fe, _2: &fe32::Fe\)", "add", T32, L32), desc="fe32 &Fe + &Fe (TIGHT operands -> LOOSE)"),
+    "fe32_sub": dict(prop=["C17"], cfg="fe32", fn=fe32_binop("sub", r"\(_1: &fe32::Fe, _2: &fe32::Fe\)", "sub", T32, L32), desc="fe32 &Fe - &Fe (TIGHT operands -> LOOSE)"),
+    "fe32_mul": dict(prop=["C17"], cfg="fe32", fn=fe32_binop("mul", r"\(_1: &fe32::Fe, _2: &fe32::Fe\)", "mul", L32, T32), desc="fe32 &Fe * &Fe (LOOSE operands -> TIGHT)"),
+    "fe32_neg": dict(prop=["C17"], cfg="fe32", fn=fe32_unop("neg", r"\(_1: &fe32::Fe\)", "neg", L32, L32), desc="fe32 -&Fe"),
+    "fe32_square": dict(prop=["C17"], cfg="fe32", fn=fe32_unop("square", r"\(_1: &fe32::Fe\)", "square", L32, T32), desc="fe32 Fe::square"),
+    "fe32_square_and_double": dict(prop=["C17"], cfg="fe32", fn=fe32_unop("square_and_double", r"\(_1: &fe32::Fe\)", "square2", L32, T32), desc="fe32 Fe::square_and_double"),
+    "fe32_mul_small_121666": dict(prop=["C17"], cfg="fe32", fn=fe32_unop("mul_small", r"\(_1: &fe32::Fe\)", "mul121666", L32, T32), desc="fe32 Fe::mul_small::<121666>", generic={"S0": (121666, "u32")}),
+    "fe32_from_bytes": dict(prop=["C17"], cfg="fe32", fn=fe32_from_bytes, desc="fe32 Fe::from_bytes"),
+    "fe32_to_bytes": dict(prop=["C17"], cfg="fe32", fn=fe32_to_bytes, desc="fe32 Fe::to_bytes canonical for TIGHT limbs", experimental=True),
+    "scalar32_reduce": dict(prop=["C17"], cfg="fe32", fn=scalar32_reduce, desc="scalar32 reduce_from_wide_bytes == x mod L, all 2^512 inputs", experimental=True),
+    "scalar32_muladd": dict(prop=["C17"], cfg="fe32", fn=scalar32_muladd, desc="scalar32 muladd == a*b+c mod L, all inputs", experimental=True),
 }
